@@ -1,7 +1,95 @@
 import Labella.Model.CalSpec
+import Labella.Proofs.CalendarLemmas
+/-! # C17 — calendar intervals round instants correctly
+
+All statements are for EVERY integer instant (milliseconds since 1970-01-01T00:00, negative ones
+included), not only the years 1900–2200 that the correspondence check samples. -/
 namespace Labella.C17
 open Labella Labella.Calendar
 
-theorem placeholder_epoch : civil 0 = (1970, 1, 1) := by decide
+/-! ### the civil calendar -/
+
+/-- consecutive years: the day count advances by the year's length -/
+theorem daysBeforeYear_succ (y : Int) : daysBeforeYear (y + 1) = daysBeforeYear y + yearLen y := by
+  exact Calendar.daysBeforeYear_succ y
+
+/-- `yearOfDay n` is the year whose day range contains `n` -/
+theorem yearOfDay_spec (n : Int) :
+    daysBeforeYear (yearOfDay n) ≤ n ∧ n < daysBeforeYear (yearOfDay n + 1) := by
+  exact Calendar.yearOfDay_spec n
+
+/-- the civil date of a day number is a valid date that denotes that day number -/
+theorem civil_valid (n : Int) :
+    1 ≤ (civil n).2.1 ∧ (civil n).2.1 ≤ 12 ∧ 1 ≤ (civil n).2.2 ∧ (civil n).2.2 ≤ monthLen (civil n).1 (civil n).2.1 ∧
+    dayNumber (civil n).1 (civil n).2.1 (civil n).2.2 = n := by
+  exact Calendar.civil_valid n
+
+/-- and conversely every valid date is the civil date of its day number (so `civil` and `dayNumber` are
+mutually inverse bijections between day numbers and valid dates) -/
+theorem civil_dayNumber (y : Int) (m : Nat) (d : Int) (hm : 1 ≤ m ∧ m ≤ 12) (hd : 1 ≤ d ∧ d ≤ monthLen y m) :
+    civil (dayNumber y m d) = (y, m, d) := by
+  exact Calendar.civil_dayNumber y m d hm hd
+
+/-! ### floor / ceil / round / offset, for each of the seven units -/
+
+/-- `floor(t)` is the latest boundary of the unit not after `t` -/
+theorem floor_is_floor (u : TUnit) (t : Int) : IsFloor u t (floorU u t) := by
+  obtain ⟨g, idx, G⟩ := grid_exists u
+  exact G.isFloor t
+
+/-- stepping a boundary forward by one unit gives the next boundary -/
+theorem step_is_next (u : TUnit) (b : Int) (hb : isBoundary u b = true) : IsNext u b (stepU u b 1) := by
+  obtain ⟨g, idx, G⟩ := grid_exists u
+  exact G.isNext b hb
+
+/-- stepping a boundary forward by `j` and then by `k` units is stepping by `j + k`: `offset(b, k)` is the
+`k`-th boundary after `b` (`k ≥ 0`) -/
+theorem step_add (u : TUnit) (b : Int) (hb : isBoundary u b = true) (j k : Nat) :
+    stepU u (stepU u b j) k = stepU u b ((j + k : Nat) : Int) := by
+  obtain ⟨g, idx, G⟩ := grid_exists u
+  exact G.step_add b hb j k
+
+theorem step_zero (u : TUnit) (b : Int) (hb : isBoundary u b = true) : stepU u b 0 = b := by
+  obtain ⟨g, idx, G⟩ := grid_exists u
+  exact G.step_zero b hb
+
+theorem step_boundary (u : TUnit) (b : Int) (hb : isBoundary u b = true) (k : Nat) :
+    isBoundary u (stepU u b k) = true := by
+  obtain ⟨g, idx, G⟩ := grid_exists u
+  exact G.step_boundary b hb k
+
+/-- `ceil(t)` is the earliest boundary not before `t` -/
+theorem ceil_is_ceil (u : TUnit) (t : Int) : IsCeil u t (ceilU u t) := by
+  obtain ⟨g, idx, G⟩ := grid_exists u
+  exact G.isCeil t
+
+/-- `round(t)` is the nearer of the two neighbouring boundaries `f ≤ t < c`, the later one on a tie -/
+theorem round_is_nearest (u : TUnit) (t : Int) :
+    let f := floorU u t
+    let c := stepU u f 1
+    IsFloor u t f ∧ IsNext u f c ∧ t < c ∧ roundU u t = (if t - f < c - t then f else c) := by
+  obtain ⟨g, idx, G⟩ := grid_exists u
+  exact ⟨G.isFloor t, G.isNext _ (G.isFloor t).1, G.lt_step_floor t, rfl⟩
+
+/-! ### range -/
+
+/-- `range(t0, t1, dt)` lists exactly the boundaries in `[t0, t1)` whose unit number is divisible by `dt`
+(all of them when `dt ≤ 1`) … -/
+theorem range_mem (u : TUnit) (t0 t1 dt : Int) (x : Int) :
+    x ∈ rangeU u t0 t1 dt ↔
+      (isBoundary u x = true ∧ t0 ≤ x ∧ x < t1 ∧ (dt ≤ 1 ∨ numberU u x % dt = 0)) := by
+  obtain ⟨g, idx, G⟩ := grid_exists u
+  exact G.range_mem t0 t1 dt x
+
+/-- … in strictly increasing order (so without repetition) -/
+theorem range_increasing (u : TUnit) (t0 t1 dt : Int) : strictlyIncreasingB (rangeU u t0 t1 dt) = true := by
+  obtain ⟨g, idx, G⟩ := grid_exists u
+  exact G.range_increasing t0 t1 dt
+
+-- non-vacuity: concrete instants
+example : floorU .month 1614470400000 = 1612137600000 ∧ isBoundary .month 1612137600000 = true := by decide  -- 2021-02-28 → 2021-02-01
+example : stepU .month 1612137600000 1 = 1614556800000 := by decide                                       -- → 2021-03-01
+example : rangeU .day 1582761600000 1583107200000 1 = [1582761600000, 1582848000000, 1582934400000, 1583020800000] := by decide +kernel  -- 27 Feb 2020 … 1 Mar 2020 (leap day included)
+
 
 end Labella.C17
